@@ -42,7 +42,10 @@ class KeywordSearches:
         """
         invert: bool = terms.inverted
         keyword: PathSearchKeywords = terms.keyword
-        parameters: List[str] = terms.parameters
+        try:
+            parameters: List[str] = terms.parameters
+        except ValueError as ex:
+            raise YAMLPathException(str(ex), str(yaml_path)) from ex
         nc_matches: Generator[NodeCoords, None, None]
 
         if keyword is PathSearchKeywords.DISTINCT:
